@@ -403,7 +403,11 @@ class ModelBackend(object):
         return fut.val
 
     def run_root(self):
-        root = Inst("r", self.spec["root"]["tmpl"], [])
+        ext = []
+        for j, tmpl in enumerate(self.spec.get("ext_tasks", [])):
+            if isinstance(tmpl, int) and 0 < tmpl < len(self.spec["templates"]):
+                ext.append(self.call(None, Inst("e%d" % j, tmpl, [])))
+        root = Inst("r", self.spec["root"]["tmpl"], ext)
         t = self.call(None, root)
         if self.mode == "seq":
             self.crit = self.force(t)
